@@ -5,6 +5,17 @@ V=/verif
 export GOFLAGS=-mod=mod GOPROXY=off GOSUMDB=off GOTOOLCHAIN=local
 ( cd $V/engine/tools/reach && go build -o $V/.build/bin/reach . ) 2> $V/.build/build_reach.log || { echo "HARNESS-ERROR property=C16 reach tool build failed"; tail -20 $V/.build/build_reach.log; exit 2; }
 cd $V/engine
+# C16 uses its own variant of the runtime hook file (adds call-site recording for the `map_range_sites` evidence)
+OV2=$V/.build/overlay_c16_pcs.json
+python3 - "$VERIF_OVERLAY" "$OV2" <<'PY' || { echo "HARNESS-ERROR property=C16 overlay rewrite failed"; exit 2; }
+import json, sys
+o = json.load(open(sys.argv[1]))
+ks = [k for k in o["Replace"] if k.endswith("/src/runtime/zz_verif_map.go")]
+assert len(ks) == 1, ks
+o["Replace"][ks[0]] = "/verif/engine/props/c16/goroot/zz_verif_map.go.txt"
+json.dump(o, open(sys.argv[2], "w"), indent=1)
+PY
+export VERIF_OVERLAY=$OV2
 if ! go build -tags verif -overlay "$VERIF_OVERLAY" -o $V/.build/bin/c16 ./props/c16 2> $V/.build/build_c16.log; then
   echo "HARNESS-ERROR property=C16 build failed (see $V/.build/build_c16.log)"; tail -30 $V/.build/build_c16.log; exit 2
 fi
